@@ -45,7 +45,9 @@ func propC19(c *Ctx) {
 		for _, p := range c.Paths(fn, PO{Params: []string{"h", "ctx", "portID", "channelID", "admin"}}) {
 			o.Paths++
 			o.Facts += p.NFacts()
-			for _, i := range p.Find(func(ev *Event) bool { return ev.Kind == EvCall && strings.HasSuffix(ev.Call.Name, "PermKeeper).SetAdmin") }) {
+			for _, i := range p.Find(func(ev *Event) bool {
+				return ev.Kind == EvCall && strings.HasSuffix(ev.Call.Name, "PermKeeper).SetAdmin")
+			}) {
 				o.Sites++
 				ev := &p.Events[i]
 				a := ev.Call.Args
@@ -207,7 +209,9 @@ func propC19(c *Ctx) {
 			for _, p := range c.Paths(fn, PO{Params: hParams, NoInline: []string{".Validate", "GetLastFinalizedOutput", "SetBatchInfo"}}) {
 				o.Paths++
 				o.Facts += p.NFacts()
-				hooks := p.Find(func(ev *Event) bool { return ev.Kind == EvCall && strings.HasSuffix(ev.Call.Name, "BridgeHook)."+h.hook) })
+				hooks := p.Find(func(ev *Event) bool {
+					return ev.Kind == EvCall && strings.HasSuffix(ev.Call.Name, "BridgeHook)."+h.hook)
+				})
 				sets := collEvents(p, len(p.Events), "BridgeConfigs", "Set")
 				for _, i := range hooks {
 					o.Sites++
